@@ -124,6 +124,23 @@ def r2_chain_step(ctx):
         r.check(not any(b in reach for b in retb), "height/every-path", "height += 1 on every path", "a path to the return skips height += 1", body.where(incs[0]))
         r.check(len(incs) == 1, "height/once", "incremented exactly once", "height is incremented %d times" % len(incs), body.where(incs[0]))
     # insert happens before the increment uses self (not new) height: key provenance above covers it
+    # the next block starts with an empty transaction set: the clone carries the sealed block's transactions, and a header's transactions_hash commits to
+    # "the transactions of this block" — left in place they would be committed (and handed out by to_block) again in every later block
+    tw = [w for w in q.stmt_writes(body, "transactions") if w[0] == "assign"]
+    empties = [w for w in tw if isinstance(w[4], tuple) and (sig(w[4]).endswith("::default()") or sig(w[4]).endswith("TransactionSet::default()") or "Default>::default" in sig(w[4]) or sig(w[4]) in ("TransactionSet::new()",))]
+    others = [w for w in tw if w not in empties]
+    if others:
+        r.undecided("transactions/reset", "transactions := %s in next_unsealed: not read" % [sig(w[4])[:80] for w in others])
+    elif not empties:
+        mut = [w for w in q.stmt_writes(body, "transactions") if w[0] != "assign"]
+        if mut:
+            r.undecided("transactions/reset", "the transaction set is changed through a reference in next_unsealed: not read")
+        else:
+            r.violation("transactions/reset", "next_unsealed never empties the transaction set of the cloned state: the sealed block's transactions stay in the next block's state, "
+                        "are committed again by its header and emitted again by to_block (every honest successor block is then refused by a node that rebuilt its state from the block)")
+    else:
+        reach = body.reachable(0, removed=[w[1] for w in empties])
+        r.check(not any(b in reach for b in retb), "transactions/reset", "transactions := empty on every path", "a path to the return keeps the sealed block's transactions", body.where(empties[0][1]))
 
 
 def r3_network_write_once(ctx):
